@@ -308,6 +308,18 @@ func c14Seeds() [][]Op {
 	}
 }
 
+// c14Deep: universe, alphabet and seeded state of the deep-index run.
+func c14Deep() (*universe, alphabetConfig, []Op) {
+	ud := newUniverse().withDeepIndex(5)
+	cfg := alphabetConfig{Repos: []string{"r"}, Blobs: []int{1, 2}, Manifests: []int{1, 3, 12, 13, 14, 15, 16}, Tags: []string{"t"}, Deletes: true, UntaggedToo: true}
+	seed := []Op{{K: "PushBlob", Repo: "r", B: 1}, {K: "PushBlob", Repo: "r", B: 2}, {K: "PushManifest", Repo: "r", M: 1}, {K: "PushManifest", Repo: "r", M: 3}}
+	for m := 12; m <= 15; m++ {
+		seed = append(seed, Op{K: "PushManifest", Repo: "r", M: m})
+	}
+	seed = append(seed, Op{K: "PushManifest", Repo: "r", M: 16, Tag: "t"})
+	return ud, cfg, seed
+}
+
 func c14Check(r *vcore.Run) vcore.Coverage {
 	u := newUniverse()
 	var states, trans int64
@@ -334,6 +346,14 @@ func c14Check(r *vcore.Run) vcore.Coverage {
 	run("Immutable-wrapper", func() vstate.System[Op] { return newImmutableWrapperSys(r, u, cfg) }, d1+1, c14Seeds(), 10*time.Minute)
 	run("immutable-tags", func() vstate.System[Op] { return newImmutableTagsSys(r, u, cfg) }, d1, c14Seeds(), 10*time.Minute)
 	run("ReadOnly-wrapper", func() vstate.System[Op] { return newReadOnlyProbeSys(r, u, c14Config(u, false)) }, d2, c14Seeds(), 10*time.Minute)
+	// a tagged tree seven levels deep (tag -> five nested indexes -> index -> image -> blobs): protection
+	// from deletion does not depend on how far below the tag something lies
+	ud, cfgd, seedd := c14Deep()
+	run("immutable-tags/deep-index", func() vstate.System[Op] {
+		s := newImmutableTagsSys(r, ud, cfgd)
+		s.sub = "immutable-tags-deep"
+		return s
+	}, d1, [][]Op{seedd}, 10*time.Minute)
 	// closed mini universes to fixpoint
 	mini := alphabetConfig{Repos: []string{"r"}, Blobs: []int{1, 2}, Manifests: []int{0, 1, 3, 4, 8}, Tags: []string{"t"}, Deletes: true, UntaggedToo: true}
 	run("Immutable-wrapper/mini-fixpoint", func() vstate.System[Op] { return newImmutableWrapperSys(r, u, mini) }, 40, nil, 10*time.Minute)
@@ -368,6 +388,10 @@ func c14Replay(r *vcore.Run, sub string, raw json.RawMessage) {
 		return
 	}
 	switch sub {
+	case "immutable-tags-deep":
+		ud, cfgd, _ := c14Deep()
+		s = newImmutableTagsSys(r, ud, cfgd)
+		s.sub = sub
 	case "immutable":
 		s = newImmutableWrapperSys(r, u, c14Config(u, true))
 	case "readonly":
